@@ -1,8 +1,11 @@
 import CJ.Model.WrapReg
 import CJ.Gen.PrefixTable
 import CJ.Drv.Registry
+import CJ.Drv.RegistryX
 /-! Driver for the classifier models on top of the registry model.
 `regwrap|<unusedT>|<activeT>|<enabled>|<ops>|<info>|<phantom>|<transport>|<data hex>|<reveal>|<marks>`
+(`<ops>`: an extended history, see `CJ.Drv.RegistryX` — every base operation, objects delivered with a
+prior `Valid` flag, tunnels, bursts, interrupted sweeps)
 → `tryagain | nottransport | err-transport | err-prefix | found <rid> <consumed> | panic` -/
 namespace CJ.Drv.Wrap
 open CJ.Registry CJ.Wrap CJ.Drv
@@ -36,12 +39,12 @@ def handle (args : List String) : Option String :=
   match args with
   | [u, a, en, ops, info, ph, tr, data, reveal, marks] => do
     let c : Cfg := { unusedT := ← u.toNat?, activeT := ← a.toNat?, enabled := ← parseNatList en }
-    let ops ← (fields ops ";").mapM Registry.parseOp
+    let ops ← RegistryX.parseOps ops
     let info ← parseInfo info
     let d ← parseHex data
     let rev ← parseReveal reveal
     let marks ← parseNatList marks
-    let s := run c ops
+    let s := (xrun c ops).b.st
     let infoF : Key → (Option (Option Int)) × Nat := fun k =>
       match info.find? (fun e => e.1 == k) with
       | some e => e.2
